@@ -682,7 +682,7 @@ func (e *Env) quant(x *SQuant) Val {
 	for _, bd := range binders {
 		names = append(names, strings.Fields(strings.Trim(bd, "()"))[0])
 	}
-	if x.Forall {
+	if x.Forall && len(x.Triggers) == 0 {
 		for i, bd := range binders {
 			if strings.HasSuffix(bd, " Int)") {
 				if nb, ok := absolutize(b, names[i]); ok {
@@ -690,6 +690,13 @@ func (e *Env) quant(x *SQuant) Val {
 				}
 			}
 		}
+	}
+	if len(x.Triggers) > 0 {
+		var ts []string
+		for _, tr := range x.Triggers {
+			ts = append(ts, ne.rvalue(ne.eval(tr)).T.S)
+		}
+		return boolVal(fmt.Sprintf("(%s (%s) (! %s :pattern (%s)))", q, strings.Join(binders, " "), b, strings.Join(ts, " ")))
 	}
 	if pats := inferPatterns(b, names); pats != "" && x.Forall {
 		return boolVal(fmt.Sprintf("(%s (%s) (! %s %s))", q, strings.Join(binders, " "), b, pats))
